@@ -1,0 +1,18 @@
+//go:build verif
+
+package mysql
+
+import "github.com/cossacklabs/acra/encryptor/base"
+
+// Verification hooks (add-only, compiled with -tags verif only): the data encryptor a query observer applies.
+
+// VerifS55Observers returns the query observers of the manager in notification order.
+func (manager *ArrayQueryObservableManager) VerifS55Observers() []QueryObserver {
+	return append([]QueryObserver{}, manager.subscribers...)
+}
+
+// VerifS55DataEncryptor returns the DataEncryptor the query encryptor applies to the values of configured columns
+// (nil for the settings-only instance the factory registers first).
+func (encryptor *QueryDataEncryptor) VerifS55DataEncryptor() base.DataEncryptor {
+	return encryptor.encryptor
+}
